@@ -113,7 +113,7 @@ class C07(Property):
             for r in runs:
                 if "db" not in r:
                     if r["outcome"]["kind"] == "harness-error":
-                        ctx.notes.append(f"harness error: {r['outcome']['detail'][:200]}")
+                        ctx.notes.append(f"harness error: {r['outcome']['detail'][:1500]}")
                     continue
                 for fkey, detail in oracle(run_spec, r, failing):
                     ctx.fail(fkey, detail, {"spec": run_spec, "failing": failing, "seed": r["seed"], "shuffle": r["shuffle"]})
